@@ -83,7 +83,7 @@ package notification
 // Every mutation that produces events reaches the wrapped storage only from inside the function handed to
 // runWithNotifications, i.e. inside the transaction the outbox insert shares: the method itself never calls the wrapped
 // storage.
-//@ methods m *StorageMiddleware of storage.Storage in PutObject CopyObject CompleteMultipartUpload DeleteObject DeleteObjects PutObjectTagging DeleteObjectTagging TransitionObjectStorageClass
+//@ methods m *StorageMiddleware of storage.Storage in PutObject CopyObject CompleteMultipartUpload DeleteObject DeleteObjects PutObjectTagging DeleteObjectTagging TransitionObjectStorageClass AppendObject
 //@ mode effects
 //@ effect[C22:mutation-only-inside-the-shared-transaction] never m.Next.$M(__)
 //@ effect[C22:mutation-goes-through-the-shared-transaction] every m.runWithNotifications(_, $f) where $f != nil
